@@ -18,6 +18,33 @@ CLAIMS = {
             "Trusts the reference recurrence as transcribed from the property statement (loop == closed form "
             "asserted on every case with T <= 4096), Hypothesis, CPython integers.",
             "DESIGN.md §3.1, §4 C01"),
+    "C02": ("Hypothesis property test + exhaustive small lattice; differential against the literal third-order "
+            "tick loop / exact integer closed form; metamorphic jerk=0 == timed-move prediction",
+            "Generated-input search over the firmware-valid T3 domain (vertex position, r_1 = 0 and r_1 = r_2 = 0 "
+            "constructed explicitly; ambient mpmath precision varied) with exact equality of position, accumulator "
+            "and end rate against an independent integer oracle. Exploration: decides every generated case "
+            "exactly, cannot establish absence.",
+            "Trusts the reference recurrence as transcribed from the statement (loop == closed form asserted for "
+            "T <= 4096), Hypothesis, CPython integers.",
+            "DESIGN.md §3.1, §4 C02"),
+    "C03": ("Hypothesis property test with inverse-constructed moves + exhaustive small lattice; oracle = first "
+            "tick at which the total variation of floor(A/2^31) reaches the budget (exact bisection, validated "
+            "against a literal per-tick step counter); round trip through move_dist_lt",
+            "Generated-input search aimed at the thin slices where the defects of the pinned tree lived "
+            "(reversal right after tick 1, boundary landings after a reversal, explicit accumulators, legacy "
+            "mirror). Found two root causes on the pinned tree (repaired, see KNOWN_FINDINGS.txt); on the "
+            "repaired tree no counterexample. Exploration, exact oracle.",
+            "Trusts the step-counting model stated in the property (steps = changes of floor(total/2^31) in "
+            "either direction), the bisection (checked against the literal loop for durations <= 20000 ticks).",
+            "DESIGN.md §4 C03, §5 F1 F2"),
+    "C17": ("Hypothesis property test (vertex-placing generator, Phase.target on shortfall/|jerk| in the thorough "
+            "tier) + exhaustive small lattice; oracle = exact discrete peak of the rate parabola",
+            "Generated-input search over valid T3 moves with the extremum placed at the first ticks, last ticks, "
+            "strictly inside and outside the move; four inequalities checked exactly in integers against the "
+            "true per-tick peak. Exploration.",
+            "Trusts the exact peak computation (ends + integers around the vertex; equals the tick loop for "
+            "T <= 4096, asserted).",
+            "DESIGN.md §3.1, §4 C17"),
 }
 
 NOT_YET = "check not built yet in this session (planned in DESIGN.md §4); not claimed until it runs green"
